@@ -15,7 +15,7 @@ import (
 
 func init() { Registry["C20"] = runC20 }
 
-const explanationC20 = "Decides an ownership discipline that holds for every schedule, on goa's runtime packages (pkg, http, http/middleware, grpc, grpc/middleware, middleware, middleware/xray, security) and on the handler templates: (R20.1) closed inventory — every store to a package-level variable, to a variable captured by an escaping closure, or through such a variable is found on the SSA form and must be performed under an exclusive lock that a must-hold dataflow proves held, by a sync/atomic call, or in an init-time function (reviewed table); (R20.2) fields that are accessed through sync/atomic anywhere are accessed only through sync/atomic, lock-protected package variables are read under a lock, and the adaptive sampler writes its window start only under its mutex; (R20.4) request-time methods of the shared types (muxer, gRPC handlers, traced doer) never write receiver state — only the mount-time methods Handle/Use do, under the mutex (C16/R16.4); (R20.3) in the handler templates the per-request function literal assigns only to variables it declares; (R20.5) fields written under a lock are read and written under a lock everywhere (lock context inherited from callers and sync.Once.Do); (R20.6) package variables of types that are not safe for concurrent use (including function variables bound to their methods) are only used under a lock; (R20.7) the shutdown sweep visits every in-flight stream; (R20.8) fields initialised under a sync.Once are read only after Do; (R20.9) pooled values are not used after Put. NOT decided: absence of races in generated code for every design beyond the templates' capture discipline, in user code, and in third-party packages (chi, grpc, encoding/*)."
+const explanationC20 = "Decides an ownership discipline that holds for every schedule, on goa's runtime packages (pkg, http, http/middleware, grpc, grpc/middleware, middleware, middleware/xray, security) and on the handler templates: (R20.1) closed inventory — every store to a package-level variable, to a variable captured by an escaping closure, or through such a variable is found on the SSA form and must be performed under an exclusive lock that a must-hold dataflow proves held, by a sync/atomic call, or in an init-time function (reviewed table); (R20.2) fields that are accessed through sync/atomic anywhere are accessed only through sync/atomic, lock-protected package variables are read under a lock, and the adaptive sampler writes its window start only under its mutex; (R20.4) request-time methods of the shared types (muxer, gRPC handlers, traced doer) never write receiver state — only the mount-time methods Handle/Use do, under the mutex (C16/R16.4); (R20.3) in the handler templates the per-request function literal assigns only to variables it declares; (R20.5) fields written under a lock are read and written under a lock everywhere (lock context inherited from callers and sync.Once.Do); (R20.6) package variables of types that are not safe for concurrent use (including function variables bound to their methods) are only used under a lock; (R20.7) the shutdown sweep visits every in-flight stream; (R20.8) fields initialised under a sync.Once are read only after Do; (R20.9) pooled values are not used after Put. shared R16.6 (route probes made per request use a fresh routing context). NOT decided: absence of races in generated code for every design beyond the templates' capture discipline, in user code, and in third-party packages (chi, grpc, encoding/*)."
 
 var runtimeDirs = []string{"pkg", "http", "http/middleware", "grpc", "grpc/middleware", "middleware", "middleware/xray", "security", "http/middleware/xray", "grpc/middleware/xray"}
 
@@ -132,6 +132,7 @@ func runC20(c *an.Ctx) string {
 	r202AtomicFields(c)
 	r202Sampler(c)
 	r204SharedTypes(c)
+	r16Probe(c) // shared with C16 (rule id R16.6): a route probe made while serving a request uses a routing context of its own, never one shared between requests
 	return explanationC20
 }
 
